@@ -138,7 +138,10 @@ EndComplete == ended => \A s \in Subs : Live(s) =>
 
 (* "never blocks": reported by the driver, confirmed by the check in isolation *)
 NoTimeout == timeouts = {}
-NoBlocked == blocked = {}
+NoBlocked == \A b \in blocked : b[1] \notin {"pubret", "subret"}
+(* A Close() call that does not return blocks its own caller only; the statement speaks about   *)
+(* publishers and other subscribers (probed by the rest of the run), so this is reported apart.  *)
+CloseReturns == \A b \in blocked : b[1] # "closeret"
 
 (* (ii) conformance: every observed step is a step of the specification *)
 Conform == [][Next]_vars
